@@ -28,7 +28,7 @@ ASSUMPTIONS = ["ASan/UBSan are the monitor: an access they cannot see (e.g. insi
 
 SAN_CFG = {"asm": "san-asm", "c64": "san-c64", "c32": "san-c32", "g64": "san-g64"}   # g64: g++ -O1 -DNDEBUG with GCC's sanitizer run time (fuzz driver only)
 FILLS = ["zeros", "ones", "valid"] + ["corrupt%d" % k for k in range(9)]
-SUBCHECKS_QUICK = ["C05", "C09", "C13", "C15", "C16", "C18"]
+SUBCHECKS_QUICK = ["C05", "C09", "C10", "C13", "C15", "C16", "C18"]
 SUBCHECKS_THOROUGH = ["C01", "C04", "C05", "C06", "C07", "C08", "C09", "C10", "C11", "C12", "C13", "C14", "C15", "C16", "C18", "C19"]
 
 
